@@ -222,11 +222,12 @@ do_codec(char * l)
 		free(key); free(doc);
 	} else if (strcmp(op, "pff") == 0) {
 		/* passphrase arriving through a named pipe (process substitution, /dev/stdin): not a regular file, size unknown */
-		char dname[] = "/tmp/verif_pff_XXXXXX", fname[64];
+		char dname[4200], fname[4300];		/* (next to the trace, not in /tmp) */
 		uint8_t * content = xbytes(a, &alen);
 		char * pw = NULL;
 		pid_t pid;
 		int rc, st;
+		snprintf(dname, sizeof(dname), "%.4000s.pffXXXXXX", text_tracepath ? text_tracepath : "/tmp/verif_pff");
 		if (mkdtemp(dname) == NULL) { free(content); return; }
 		snprintf(fname, sizeof(fname), "%s/p", dname);
 		if (mkfifo(fname, 0600) != 0) { rmdir(dname); free(content); return; }
@@ -248,9 +249,11 @@ do_codec(char * l)
 		free(content);
 	} else if (strcmp(op, "kf") == 0 || strcmp(op, "pf") == 0) {
 		/* key file / passphrase file with the given content */
-		char fname[] = "/tmp/verif_kf_XXXXXX";
+		char fname[4200];
 		uint8_t * content = xbytes(a, &alen);
-		int fd = mkstemp(fname), rc;
+		int fd, rc;
+		snprintf(fname, sizeof(fname), "%.4000s.kfXXXXXX", text_tracepath ? text_tracepath : "/tmp/verif_kf");
+		fd = mkstemp(fname);
 		if (fd < 0) { free(content); return; }
 		if (alen && write(fd, content, alen) != (ssize_t)alen) { close(fd); unlink(fname); free(content); return; }
 		close(fd);
